@@ -205,5 +205,6 @@ def run(prop, args):
             return next((d for p, d in o["viol"] if p == b[1]), None)
         small = C.shrink(w, lambda c: det(c) is not None, budget=120, is_valid=lambda c: domain(c) == domain(w) and min(
             [v for k, v in c.items() if k in ("ram", "disk", "s", "d", "b") and isinstance(v, int)] or [0]) >= 0 and c["n"] >= -1 and c.get("period", 1) >= -1)
-        return small, det(small) or ""
+        d_ = det(small)
+        return (small, d_) if d_ else None      # None: not reproducible in isolation
     return rep.finish(shrink_fn=shrink)
